@@ -94,6 +94,10 @@ class _R:
             self.field(ti, f, ind + 1)
 
 
+SIBLING = ["struct SiblingScope:", '  [$default byte_order: "BigEndian"]',
+           "  0 [+2]  UInt  sibling_field", "  2 [+2]  bits:", "    0 [+9]  UInt  sibling_bits"]
+
+
 def render(prog):
     """Returns (text, spans) with spans[0] = module attribute lines, spans[i] = lines of the
     top-level definition containing type i (1-based type indices), each [l1, l2] ([0, 0] if absent)."""
@@ -101,6 +105,10 @@ def render(prog):
     for a in prog["mattrs"]:
         r.add(0, attr_text(a))
     spans = [[1, len(r.lines)] if r.lines else [0, 0]] + [[0, 0] for _ in r.types]
+    # Concrete context the abstract program knows nothing about: a sibling structure with `$default`s scoped to
+    # ITSELF comes first.  "Defaults are inherited through (enclosing) scopes": a sibling's defaults reach nobody.
+    for line in SIBLING:
+        r.add(0, line)
     top_span = {}
     for i, t in enumerate(r.types):
         if t["parent"] == 0 and not t["anon"]:
